@@ -9,7 +9,8 @@ depth as programs (binding G); sequences on which the machine predicts a hang ar
 hanging call.  drv_multilayer executes programs on the real MultiLayerCacheImpl<RibbitKey> (memory + disk
 layers in a temp dir, watchdog), T_MultiLayer judges every event with the same `Verdict` (binding T).
 """
-import json, os, random
+import json, os, random, threading
+from concurrent.futures import ThreadPoolExecutor
 from . import lib
 
 MODULE_MC = "MC_MultiLayer"
@@ -17,6 +18,10 @@ MODULE_T = "T_MultiLayer"
 DRV = "drv_multilayer"
 ALL_FINDINGS = ["F12a", "F12b"]
 STRATEGIES = ["on_hit", "after2", "freq", "age", "manual"]
+# independent TLC / driver jobs run PAR at a time, each with W threads (VERIF_WORKERS=4 -> one job at a time)
+PAR = max(1, lib.NCPU // 4)
+W = min(4, lib.NCPU)
+LOCK = threading.Lock()
 
 
 # --------------------------------------------------------------------------- cfg files
@@ -31,7 +36,7 @@ def mc_cfg(path, family, layout, cap0, hooks, depth, fixed, kd, invariants, dead
 
 
 def t_cfg(ctx, kd):
-    path = ctx.path("t_multilayer.cfg")
+    path = ctx.path(f"t_multilayer_{threading.get_ident()}.cfg")
     lines = ["CONSTANTS", f"  KnownDeviations = {lib.tla_set(kd)}", "  Keys = {}", "  Vals = {}", "  Kinds <- TKinds",
              "  Caps <- TCaps", "  Hooks = FALSE", "  Fixed = {}", "INIT TInit", "NEXT TNext", "INVARIANT Done", "CHECK_DEADLOCK FALSE"]
     open(path, "w").write("\n".join(lines) + "\n")
@@ -47,32 +52,31 @@ def design_checks(ctx, kd):
             ("valid", "md", 1, True, 4), ("layer", "mmd", 1, False, 3)]
     if not ctx.quick:
         plan += [("core", "mmd", 2, False, 4), ("core", "md", 2, False, 4), ("fault", "mmd", 1, True, 3)]
-    st = tr = 0
+    jobs = []      # (name, cfg arguments, invariants, deadlock, expect_violation)
     for fam, lay, c0, hooks, d in plan:
-        cfg = ctx.path(f"design_{fam}_{lay}.cfg")
-        mc_cfg(cfg, fam, lay, c0, hooks, d, ALL_FINDINGS, [], ["ConformsIdeal", "Returns", "GhostSane"], deadlock=True)
-        r = lib.tlc(ctx, MODULE_MC, cfg, timeout=900)
-        st += r["distinct"]; tr += r["generated"]
-    res["repaired_machine_satisfies_property"] = {"configs": len(plan), "distinct_states": st}
-    # as-is: a get never returns (F12a): invariant Returns, and TLC's own deadlock check on the sub-machine
-    cfg = ctx.path("design_asis_a.cfg")
-    mc_cfg(cfg, "core", "md", 1, False, 4, [], [], ["Returns"])
-    r = lib.tlc(ctx, MODULE_MC, cfg, timeout=600, expect_violation=True)
-    res["asis_F12a_every_call_returns_refuted"] = "Returns" in r["invariant_violated"]
-    cfg = ctx.path("design_asis_a2.cfg")
-    mc_cfg(cfg, "core", "md", 1, False, 4, [], [], [], deadlock=True)
-    r = lib.tlc(ctx, MODULE_MC, cfg, timeout=600, expect_violation=True)
-    res["asis_F12a_tlc_deadlock_in_call_submachine"] = bool(r["deadlock"])
+        jobs.append((f"ideal_{fam}_{lay}{c0}", (fam, lay, c0, hooks, d, ALL_FINDINGS, []), ["ConformsIdeal", "Returns", "GhostSane"], True, False))
+    # as-is: a get never returns (F12a): invariant Returns, and TLC's own deadlock check on the per-call sub-machine
+    jobs.append(("asis_a", ("core", "md", 1, False, 4, [], []), ["Returns"], False, True))
+    jobs.append(("asis_a2", ("core", "md", 1, False, 4, [], []), [], True, True))
     # as-is with the lock repaired: a stale value is served (F12b) ...
-    cfg = ctx.path("design_asis_b.cfg")
-    mc_cfg(cfg, "core", "md", 1, False, 4, ["F12a"], [], ["ConformsIdeal"])
-    r = lib.tlc(ctx, MODULE_MC, cfg, timeout=600, expect_violation=True)
-    res["asis_F12b_coherence_refuted"] = "ConformsIdeal" in r["invariant_violated"]
+    jobs.append(("asis_b", ("core", "md", 1, False, 4, ["F12a"], []), ["ConformsIdeal"], False, True))
     # ... and the signature of F12b explains every deviation of the as-is machine
-    cfg = ctx.path("design_asis_c.cfg")
-    mc_cfg(cfg, "core", "md", 1, False, 4, ["F12a"], ["F12b"], ["Conforms"])
-    r = lib.tlc(ctx, MODULE_MC, cfg, timeout=600)
-    st += r["distinct"]; tr += r["generated"]
+    jobs.append(("asis_c", ("core", "md", 1, False, 4, ["F12a"], ["F12b"]), ["Conforms"], False, False))
+
+    def one(job):
+        name, a, invs, dl, expect = job
+        cfg = ctx.path(f"design_{name}.cfg")
+        mc_cfg(cfg, *a, invs, deadlock=dl)
+        return name, lib.tlc(ctx, MODULE_MC, cfg, workers=W, timeout=900, expect_violation=expect)
+
+    with ThreadPoolExecutor(max_workers=PAR) as ex:
+        out = dict(ex.map(one, jobs))
+    st = sum(r["distinct"] for n, r in out.items() if n.startswith("ideal_") or n == "asis_c")
+    tr = sum(r["generated"] for n, r in out.items() if n.startswith("ideal_") or n == "asis_c")
+    res["repaired_machine_satisfies_property"] = {"configs": len(plan), "distinct_states": st - out["asis_c"]["distinct"]}
+    res["asis_F12a_every_call_returns_refuted"] = "Returns" in out["asis_a"]["invariant_violated"]
+    res["asis_F12a_tlc_deadlock_in_call_submachine"] = bool(out["asis_a2"]["deadlock"])
+    res["asis_F12b_coherence_refuted"] = "ConformsIdeal" in out["asis_b"]["invariant_violated"]
     res["asis_deviations_all_explained_by_signatures"] = True
     ctx.cov["states"] += st
     ctx.cov["transitions"] += tr
@@ -96,9 +100,10 @@ def generate(ctx, tag, family, layout, cap0, hooks, depth, fixed, kd):
     mc_cfg(cfg, family, layout, cap0, hooks, depth, fixed, kd, ["Conforms", "Emit"])
     progs = ctx.path(f"prog_{tag}.raw")
     hangs = ctx.path(f"hang_{tag}.raw")
-    r = lib.tlc(ctx, MODULE_MC, cfg, tagged_out={"PROGRAM": progs, "HANGPROG": hangs}, timeout=1500)
-    ctx.cov["states"] += r["distinct"]
-    ctx.cov["transitions"] += r["generated"]
+    r = lib.tlc(ctx, MODULE_MC, cfg, workers=W, tagged_out={"PROGRAM": progs, "HANGPROG": hangs}, timeout=1500)
+    with LOCK:
+        ctx.cov["states"] += r["distinct"]
+        ctx.cov["transitions"] += r["generated"]
     p = list(dict.fromkeys(lib.read_lines(progs)))      # eviction nondeterminism repeats a program text
     h = list(dict.fromkeys(lib.read_lines(hangs)))
     os.remove(progs); os.remove(hangs)
@@ -118,9 +123,10 @@ def program_of(evs):
 
 def judge_trace(ctx, trace, source, kd, max_events=60000):
     cfg = t_cfg(ctx, kd)
-    v = lib.judge(ctx, MODULE_T, cfg, trace, max_events=max_events)
-    ctx.stage("judge", source=source, events=v["events"], violations=len(v["violations"]), deviations=len(v["deviations"]), wall_s=v["wall_s"])
-    lib.classify_trace(ctx, v, trace, source, program_of=program_of)
+    v = lib.judge(ctx, MODULE_T, cfg, trace, max_events=max_events, parallel=W)
+    with LOCK:
+        ctx.stage("judge", source=source, events=v["events"], violations=len(v["violations"]), deviations=len(v["deviations"]), wall_s=v["wall_s"])
+        lib.classify_trace(ctx, v, trace, source, program_of=program_of)
     return v
 
 
@@ -213,6 +219,9 @@ def known(ctx):
 
 
 def run(ctx):
+    import time
+    stage0 = ctx.stage
+    ctx.stage = lambda name, **kw: stage0(name, **kw, t=round(time.time() - ctx.t0, 1))
     kd = known(ctx)
     fixed = [f for f in ALL_FINDINGS if f not in kd]
     lib.build([DRV])
@@ -235,24 +244,31 @@ def run(ctx):
                 ("valid_md1", "valid", "md", 1, True, 5), ("valid_off", "valid", "md", 1, False, 4), ("valid_mmd", "valid", "mmd", 1, True, 4),
                 ("fault_md1", "fault", "md", 1, True, 4), ("fault_mmd", "fault", "mmd", 2, True, 3), ("ttl_md1", "ttl", "md", 1, False, 5)]
         max_hang, nrand, rlen = 320, 2000, 80
-    total = distinct = 0
     hang_pool = []
-    kept = None
-    for n, (tag, fam, lay, c0, hooks, d) in enumerate(plan):
+    counts = {"total": 0, "distinct": 0}
+
+    def pipeline(item):
+        n, (tag, fam, lay, c0, hooks, d) = item
         progs, hangs = generate(ctx, tag, fam, lay, c0, hooks, d, fixed, kd)
-        hang_pool += hangs
         progs = add_strategy(progs, n)
-        trace, info = run_programs(ctx, tag, progs, shards=min(12, lib.NCPU))
-        total += len(progs); distinct += len(set(progs))
-        if len(ctx.cov["samples"]) < 4:
-            ls = lib.read_lines(trace)
-            s, e = lib.run_of_line(ls, len(ls) // 2 + 1)
-            ctx.cov["samples"].append({"source": f"MC_MultiLayer {tag}", "trace": [json.loads(x) for x in ls[s:e]]})
+        # programs of the ttl family mostly sleep: many at a time inside one driver process
+        trace, info = run_programs(ctx, tag, progs, jobs=16 if fam == "ttl" else 1, shards=W)
+        ls = lib.read_lines(trace)
+        s_, e_ = lib.run_of_line(ls, len(ls) // 2 + 1)
+        sample = {"source": f"MC_MultiLayer {tag}", "trace": [json.loads(x) for x in ls[s_:e_]]}
         judge_trace(ctx, trace, f"MC_MultiLayer {tag} family={fam} layout={lay} cap0={c0} hooks={hooks} depth={d}", kd)
-        if kept is None:
-            kept = trace
+        if n == 0:
             selftest(ctx, trace, kd)
         os.remove(trace)
+        with LOCK:
+            hang_pool.extend(hangs)
+            counts["total"] += len(progs); counts["distinct"] += len(set(progs))
+            if len(ctx.cov["samples"]) < 4:
+                ctx.cov["samples"].append(sample)
+
+    with ThreadPoolExecutor(max_workers=PAR) as ex:
+        list(ex.map(pipeline, enumerate(plan)))
+    total, distinct = counts["total"], counts["distinct"]
     # programs on which the machine predicts that a call never returns (only while F12a is a listed finding):
     # each costs the watchdog timeout, so a seeded sample is executed, many at a time
     hang_pool = list(dict.fromkeys(hang_pool))
